@@ -1,5 +1,8 @@
 /* vsched scenario family: work-unit life cycle (C01 C03 C06 C11 C12 C13).
  * usage: sc_units <seed> <mode> <log> <nes> <nunits> <steps> <poolkind 0 fifo|1 fifo_wait|2 randws> <sched 0 basic|1 basic_wait|2 prio|3 randws>
+ *                 [topo 0 classic | 1 early stream join | 2 shared pool in front of each secondary stream's own pool, early stream join]
+ * topo >= 1: the primary joins the secondary streams while units (also blocked ones, resumed later by the resumer thread)
+ * are still alive in their pools: ABT_xstream_join must return only after all of them have terminated.
  * Units (named / unnamed ULTs, tasklets) run generated scripts: yield, create+join a child, suspend (a resumer
  * polls the BLOCKED state from another OS thread), migrate to another pool, exit early; the primary ULT cancels
  * some units.  Monitors: every unit's function runs exactly once with its own argument, join returns after the
@@ -8,21 +11,25 @@
 #include <sched.h>
 
 #define MAXU 48
-enum { OP_YIELD, OP_CHILD, OP_SUSPEND, OP_MIGRATE, OP_EXIT, OP_STATE, OP_CREATE_TO, OP_YIELD_TO, OP_NOPS };
-static const char *OPN_[] = { "yield", "child", "suspend", "migrate", "exit", "state", "create_to", "yield_to" };
+enum { OP_YIELD, OP_CHILD, OP_SUSPEND, OP_MIGRATE, OP_EXIT, OP_STATE, OP_CREATE_TO, OP_YIELD_TO, OP_RESUME_YIELD_TO, OP_NOPS };
+static const char *OPN_[] = { "yield", "child", "suspend", "migrate", "exit", "state", "create_to", "yield_to", "resume_yield_to" };
 
 typedef struct unit {
     int id, kind, named, pool, parent; /* kind: AK_ULT / AK_TASK */
     int nsteps, steps[8];
     ABT_thread th;
     volatile int started, finished, exited, want_resume, resumed_cnt, mig_cb, mig_target, cancel_me, joined, has_cb, counted_out, in_run;
+    int home, moves, life; /* home: pool it was created in; moves: it has a migrate step; life: 0 first, 1 revived */
+    struct unit *fwd;      /* the descriptor was revived as that unit (the migration callback keeps the first argument) */
     long arg_seen;
 } unit;
 static unit U[MAXU];
 static int nunits, maxunits = 12, nsteps = 4;
 static volatile int live_workers;
 static volatile int stop_resumer;
-static int poolkind, schedkind;
+static int poolkind, schedkind, topo;
+static int shared_pool = -1; /* topo 2: index of the pool every secondary stream serves in front of its own */
+static int npools;
 
 static void unit_fn(void *arg);
 
@@ -30,8 +37,30 @@ static void mig_cb(ABT_thread t, void *arg)
 {
     unit *u = (unit *)arg;
     (void)t;
+    while (u->fwd)
+        u = u->fwd;
     u->mig_cb++;
     vs_note("migCb U%d", u->id);
+}
+
+static void gen_steps(unit *u)
+{
+    u->nsteps = 1 + sc_rnd(nsteps);
+    u->moves = 0;
+    for (int i = 0; i < u->nsteps; i++) {
+        int op = sc_rnd(OP_NOPS);
+        if (u->kind == AK_TASK && op != OP_STATE)
+            op = OP_STATE; /* tasklets cannot yield / block / migrate */
+        if (op == OP_MIGRATE && (sc_nes < 2 || u->pool == shared_pool))
+            op = OP_YIELD;
+        if (op == OP_SUSPEND && !u->named)
+            op = OP_YIELD; /* the resumer needs a handle that stays valid */
+        if (u->pool == shared_pool && u->kind == AK_ULT && op != OP_YIELD && op != OP_STATE && op != OP_EXIT)
+            op = OP_YIELD; /* blocked units of a pool with several consumers do not keep any stream alive: keep them simple */
+        if (op == OP_MIGRATE)
+            u->moves = 1;
+        u->steps[i] = op;
+    }
 }
 
 static int new_unit(int parent, int allow_task)
@@ -45,19 +74,13 @@ static int new_unit(int parent, int allow_task)
     int k = sc_rnd(10);
     u->kind = (allow_task && k < 2) ? AK_TASK : AK_ULT;
     u->named = (parent < 0) ? 1 : (sc_rnd(3) != 0); /* children may be unnamed: nobody joins them */
-    u->pool = sc_rnd(sc_nes);
-    u->nsteps = 1 + sc_rnd(nsteps);
+    if (topo == 0 || parent < 0 || parent == 99)
+        u->pool = sc_rnd(npools);
+    else
+        u->pool = sc_rnd(3) ? U[parent].pool : 0; /* early stream join: only into a pool whose stream is certainly alive */
+    u->home = u->pool;
     u->mig_target = -1;
-    for (int i = 0; i < u->nsteps; i++) {
-        int op = sc_rnd(OP_NOPS);
-        if (u->kind == AK_TASK && op != OP_STATE)
-            op = OP_STATE; /* tasklets cannot yield / block / migrate */
-        if (op == OP_MIGRATE && sc_nes < 2)
-            op = OP_YIELD;
-        if (op == OP_SUSPEND && !u->named)
-            op = OP_YIELD; /* the resumer needs a handle that stays valid */
-        u->steps[i] = op;
-    }
+    gen_steps(u);
     return u->id;
 }
 
@@ -99,8 +122,8 @@ static void launch_unit(int id)
     launch_unit_ex(id, 0);
 }
 
-/* join + free, or (free_only) ABT_thread_free alone, which joins internally: the caller may block inside the free
- * and come back on another execution stream */
+/* mode 0: join + free; 1: ABT_thread_free alone, which joins internally (the caller may block inside the free and come
+ * back on another execution stream); 2: join only, the handle is kept (revive) */
 static void join_unit_ex(int id, int by, int free_only)
 {
     unit *u = &U[id];
@@ -109,7 +132,7 @@ static void join_unit_ex(int id, int by, int free_only)
         char b[64];
         vs_log("apiCall join U%d %s", id, vs_addr_name(p_target, b, sizeof b));
     }
-    if (free_only) {
+    if (free_only == 1) {
         ABT_OK(ABT_thread_free(&u->th));
         char b[64];
         vs_note("apiRet join U%d %s", id, vs_addr_name(p_target, b, sizeof b));
@@ -138,8 +161,54 @@ static void join_unit_ex(int id, int by, int free_only)
         u->counted_out = 1;
         __sync_fetch_and_sub(&live_workers, 1);
     }
+    if (free_only == 2)
+        return;
     ABT_OK(ABT_thread_free(&u->th));
     VSA_CHECK(u->th == ABT_THREAD_NULL, "ABT_thread_free did not reset the handle of U%d", id);
+}
+
+/* a joined (terminated, still named) unit gets a second life with a new script, possibly in another pool */
+static int revive_unit(int old)
+{
+    if (nunits >= maxunits)
+        return -1;
+    unit *o = &U[old];
+    unit *u = &U[nunits];
+    memset(u, 0, sizeof *u);
+    u->id = nunits++;
+    u->parent = -1;
+    u->kind = o->kind;
+    u->named = 1;
+    u->pool = sc_rnd(npools);
+    u->home = u->pool;
+    u->mig_target = -1;
+    u->life = 1;
+    u->has_cb = o->has_cb;
+    gen_steps(u);
+    u->th = o->th;
+    o->th = ABT_THREAD_NULL;
+    o->fwd = u;
+    __sync_fetch_and_add(&live_workers, 1);
+    vs_note("unit U%d kind=%s named=1 pool=%d parent=-1 revives=U%d", u->id, AKN[u->kind], u->pool, old);
+    if (u->kind == AK_ULT) {
+        ABT_OK(ABT_thread_revive(sc_pool[u->pool], unit_fn, u, &u->th));
+    } else {
+        ABT_OK(ABT_task_revive(sc_pool[u->pool], unit_fn, u, (ABT_task *)&u->th));
+    }
+    return u->id;
+}
+
+/* exactly one party resumes a suspension: the resumer thread or a unit doing ABT_self_resume_yield_to */
+static int claim_resume(unit *t)
+{
+    int c = t->resumed_cnt;
+    if (t->kind != AK_ULT || !t->named || t->joined || c >= t->want_resume)
+        return 0;
+    ABT_thread th = t->th;
+    ABT_thread_state st;
+    if (th == ABT_THREAD_NULL || ABT_thread_get_state(th, &st) != ABT_SUCCESS || st != ABT_THREAD_STATE_BLOCKED)
+        return 0;
+    return __sync_bool_compare_and_swap(&t->resumed_cnt, c, c + 1);
 }
 
 static void join_unit(int id, int by)
@@ -192,7 +261,14 @@ static void unit_fn(void *arg)
                 if (c < 0)
                     break;
                 U[c].kind = AK_ULT;
-                U[c].pool = u->pool;
+                U[c].pool = U[c].home = u->pool;
+                /* after a resume_yield_to this unit may run on a stream that does not serve its pool: another stream
+                 * could then pop the child before the directed yield names it, so create_to is used instead */
+                int rank = -1;
+                ABT_OK(ABT_xstream_self_rank(&rank));
+                int same_es = (rank == u->pool);
+                if (op == OP_YIELD_TO && !same_es)
+                    op = OP_CREATE_TO;
                 if (op == OP_YIELD_TO)
                     U[c].named = 1;
                 u->in_run = 0;
@@ -205,9 +281,33 @@ static void unit_fn(void *arg)
                 }
                 VSA_CHECK(u->in_run == 0, "unit U%d resumed on two streams at once", u->id);
                 u->in_run = 1;
-                VSA_CHECK(U[c].started == 1, "directed switch from U%d: the target U%d had not run when the caller resumed", u->id, c);
+                if (same_es)
+                    VSA_CHECK(U[c].started == 1, "directed switch from U%d: the target U%d had not run when the caller resumed", u->id, c);
                 if (U[c].named)
                     children[nch++] = c;
+                break;
+            }
+            case OP_RESUME_YIELD_TO: {
+                /* resume a suspended unit (wherever it was started) and run it next on this stream */
+                int t = -1;
+                for (int k = 0; k < nunits; k++)
+                    if (k != u->id && claim_resume(&U[k])) {
+                        t = k;
+                        break;
+                    }
+                if (t < 0) {
+                    u->in_run = 0;
+                    ABT_OK(ABT_thread_yield());
+                    u->in_run = 1;
+                    break;
+                }
+                vs_log("apiCall resume_yield_to U%d", t);
+                int st0 = U[t].started;
+                u->in_run = 0;
+                ABT_OK(ABT_self_resume_yield_to(U[t].th));
+                VSA_CHECK(u->in_run == 0, "unit U%d resumed on two streams at once", u->id);
+                u->in_run = 1;
+                VSA_CHECK(st0 == 1, "resume_yield_to target U%d had started %d times", t, st0);
                 break;
             }
             case OP_SUSPEND:
@@ -224,7 +324,7 @@ static void unit_fn(void *arg)
             case OP_MIGRATE: {
                 ABT_bool mig = ABT_FALSE;
                 ABT_OK(ABT_thread_is_migratable(self, &mig));
-                int tgt = (u->pool + 1 + sc_rnd(sc_nes - 1)) % sc_nes;
+                int tgt = topo ? 0 : (u->pool + 1 + sc_rnd(sc_nes - 1)) % sc_nes; /* early stream join: only to the primary's pool */
                 ABT_pool cur;
                 ABT_OK(ABT_thread_get_last_pool(self, &cur));
                 int rc = ABT_thread_migrate_to_pool(self, sc_pool[tgt]);
@@ -234,13 +334,39 @@ static void unit_fn(void *arg)
                     VSA_CHECK(rc == ABT_SUCCESS, "migrate_to_pool of U%d returned %d", u->id, rc);
                     int cb0 = u->mig_cb;
                     vs_note("migReq U%d P%d", u->id, tgt);
-                    if (nch > 0 && sc_rnd(2)) {
+                    int how = sc_rnd(4);
+                    if (how == 1 && nch > 0) {
                         /* the request is handled when this unit blocks in the join inside ABT_thread_free (if the
                          * child is still running): the caller then comes back on the target pool's stream */
                         u->in_run = 0;
                         join_unit_ex(children[--nch], u->id, 1);
                         VSA_CHECK(u->in_run == 0, "unit U%d resumed on two streams at once", u->id);
                         u->in_run = 1;
+                    } else if (how == 2 && u->named) {
+                        /* ... or when it suspends: BLOCKED must not be visible before the migration is done */
+                        u->want_resume++;
+                        vs_log("apiCall suspend U%d", u->id);
+                        u->in_run = 0;
+                        ABT_OK(ABT_self_suspend());
+                        VSA_CHECK(u->in_run == 0, "unit U%d resumed on two streams at once", u->id);
+                        u->in_run = 1;
+                        vs_note("apiRet suspend U%d", u->id);
+                    } else if (how == 3 && ({ int rk = -1; ABT_xstream_self_rank(&rk); rk == u->pool; })) {
+                        /* ... or in the callback of an old-style directed yield */
+                        int c = new_unit(u->id, 0);
+                        if (c >= 0) {
+                            U[c].kind = AK_ULT;
+                            U[c].pool = U[c].home = u->pool;
+                            U[c].named = 1;
+                            gen_steps(&U[c]);
+                            launch_unit(c);
+                            vs_log("apiCall yield_to U%d", c);
+                            u->in_run = 0;
+                            ABT_OK(ABT_thread_yield_to(U[c].th));
+                            VSA_CHECK(u->in_run == 0, "unit U%d resumed on two streams at once", u->id);
+                            u->in_run = 1;
+                            children[nch++] = c;
+                        }
                     }
                     ABT_OK(ABT_thread_get_last_pool(self, &cur));
                     if (cur != sc_pool[tgt]) {
@@ -289,11 +415,7 @@ static void *resumer(void *p)
         int did = 0;
         for (int i = 0; i < nunits; i++) {
             unit *u = &U[i];
-            if (u->kind != AK_ULT || !u->named || u->joined || u->resumed_cnt >= u->want_resume)
-                continue;
-            ABT_thread_state st;
-            if (ABT_thread_get_state(u->th, &st) == ABT_SUCCESS && st == ABT_THREAD_STATE_BLOCKED) {
-                u->resumed_cnt++;
+            if (claim_resume(u)) {
                 vs_log("apiCall resume U%d", i);
                 ABT_OK(ABT_thread_resume(u->th));
                 vs_note("apiRet resume U%d", i);
@@ -306,6 +428,27 @@ static void *resumer(void *p)
     return NULL;
 }
 
+/* ABT_xstream_join of stream x has returned: every unit that lived only in the pool that only this stream serves is done */
+static void check_stream_done(int x)
+{
+    for (int i = 0; i < nunits; i++) {
+        unit *u = &U[i];
+        if (u->home != x || u->moves || u->pool != x)
+            continue;
+        if (u->parent < 0 && !u->joined && u->th != ABT_THREAD_NULL) {
+            ABT_thread_state st;
+            ABT_OK(ABT_thread_get_state(u->th, &st));
+            VSA_CHECK(st == ABT_THREAD_STATE_TERMINATED,
+                      "ABT_xstream_join of X%d returned but U%d of its pool is in state %d (started=%d finished=%d)", x, i, (int)st,
+                      u->started, u->finished);
+        }
+        if (!u->cancel_me)
+            VSA_CHECK(u->started == 1 && (u->finished == 1 || u->exited == 1),
+                      "ABT_xstream_join of X%d returned but U%d of its pool has started=%d finished=%d exited=%d", x, i, u->started,
+                      u->finished, u->exited);
+    }
+}
+
 int main(int argc, char **argv)
 {
     vsa_setup(argc, argv);
@@ -314,14 +457,18 @@ int main(int argc, char **argv)
     nsteps = (int)vsa_param(2, 4);
     poolkind = (int)vsa_param(3, 0);
     schedkind = (int)vsa_param(4, 0);
+    topo = (int)vsa_param(5, 0);
+    if (nes < 2)
+        topo = 0;
     if (maxunits > MAXU)
         maxunits = MAXU;
     ABT_init(0, NULL);
     vsa_begin();
     vs_autoname_units(1);
-    vs_note("scenario units nes=%d maxunits=%d nsteps=%d poolkind=%d sched=%d", nes, maxunits, nsteps, poolkind, schedkind);
+    vs_note("scenario units nes=%d maxunits=%d nsteps=%d poolkind=%d sched=%d topo=%d", nes, maxunits, nsteps, poolkind, schedkind, topo);
     /* streams */
     sc_nes = nes;
+    npools = nes;
     ABT_OK(ABT_xstream_self(&sc_xs[0]));
     ABT_OK(ABT_xstream_get_main_pools(sc_xs[0], 1, &sc_pool[0]));
     vsa_name_xstream(sc_xs[0], "X0");
@@ -333,10 +480,29 @@ int main(int argc, char **argv)
     }
     ABT_pool_kind pk = poolkind == 1 ? ABT_POOL_FIFO_WAIT : (poolkind == 2 ? ABT_POOL_RANDWS : ABT_POOL_FIFO);
     ABT_sched_predef sk = schedkind == 1 ? ABT_SCHED_BASIC_WAIT : (schedkind == 2 ? ABT_SCHED_PRIO : (schedkind == 3 ? ABT_SCHED_RANDWS : ABT_SCHED_BASIC));
+    if (topo == 2) {
+        shared_pool = nes;
+        npools = nes + 1;
+        ABT_OK(ABT_pool_create_basic(pk, ABT_POOL_ACCESS_MPMC, ABT_TRUE, &sc_pool[shared_pool]));
+        vsa_name_pool(sc_pool[shared_pool], "P%d", shared_pool);
+    }
     for (int i = 1; i < nes; i++) {
         ABT_OK(ABT_pool_create_basic(pk, ABT_POOL_ACCESS_MPMC, ABT_TRUE, &sc_pool[i]));
         vsa_name_pool(sc_pool[i], "P%d", i);
-        ABT_OK(ABT_xstream_create_basic(sk, 1, &sc_pool[i], ABT_SCHED_CONFIG_NULL, &sc_xs[i]));
+        if (topo == 2) {
+            /* the shared pool comes first: the scheduler must still look at its own pool when the shared one is empty */
+            ABT_pool two[2] = { sc_pool[shared_pool], sc_pool[i] };
+            if (schedkind == 3) {
+                /* the RANDWS scheduler treats every pool but its first as a victim and steals from the end where a
+                 * yielding unit is pushed back: a unit polling in a yield loop (join of a tasklet) would be re-popped for
+                 * ever and starve the rest of its own pool (scheduler policy, not a property of the runtime) */
+                two[0] = sc_pool[i];
+                two[1] = sc_pool[shared_pool];
+            }
+            ABT_OK(ABT_xstream_create_basic(sk, 2, two, ABT_SCHED_CONFIG_NULL, &sc_xs[i]));
+        } else {
+            ABT_OK(ABT_xstream_create_basic(sk, 1, &sc_pool[i], ABT_SCHED_CONFIG_NULL, &sc_xs[i]));
+        }
         vsa_name_xstream(sc_xs[i], "X%d", i);
     }
     pthread_t rt;
@@ -362,20 +528,58 @@ int main(int argc, char **argv)
             ABT_OK(ABT_thread_cancel(U[c].th));
         }
     }
-    for (int i = 0; i < ntop; i++)
-        join_unit(tops[i], 99);
-    /* unnamed descendants may still be running: wait for them, then stop the streams */
+    /* join the top-level units; some get a second life (revive); with an early stream join some are left for later */
+    int later[16], nl = 0;
+    for (int i = 0; i < ntop; i++) {
+        if (topo && sc_rnd(2)) {
+            later[nl++] = tops[i];
+            continue;
+        }
+        if (sc_rnd(3) == 0) {
+            join_unit_ex(tops[i], 99, 2);
+            int r = revive_unit(tops[i]);
+            if (r >= 0) {
+                later[nl++] = r;
+            } else {
+                ABT_OK(ABT_thread_free(&U[tops[i]].th));
+            }
+        } else {
+            join_unit(tops[i], 99);
+        }
+    }
+    if (!topo) {
+        for (int i = 0; i < nl; i++)
+            join_unit(later[i], 99);
+        nl = 0;
+        /* unnamed descendants may still be running: wait for them, then stop the streams */
+        while (live_workers > 0)
+            ABT_OK(ABT_thread_yield());
+    }
+    for (int i = 1; i < nes; i++) {
+        vs_log("apiCall xstream_join X%d", i);
+        ABT_OK(ABT_xstream_join(sc_xs[i]));
+        vs_note("apiRet xstream_join X%d", i);
+        check_stream_done(i);
+    }
+    if (shared_pool >= 0)
+        for (int i = 0; i < nunits; i++)
+            if (U[i].home == shared_pool && !U[i].cancel_me)
+                VSA_CHECK(U[i].started == 1 && (U[i].finished == 1 || U[i].exited == 1),
+                          "all streams serving the shared pool are joined but its U%d has started=%d finished=%d", i, U[i].started,
+                          U[i].finished);
+    for (int i = 0; i < nl; i++)
+        join_unit(later[i], 99);
     while (live_workers > 0)
         ABT_OK(ABT_thread_yield());
     stop_resumer = 1;
     pthread_join(rt, NULL);
-    for (int i = 1; i < nes; i++) {
-        ABT_OK(ABT_xstream_join(sc_xs[i]));
+    for (int i = 1; i < npools; i++) {
         size_t tot;
         ABT_OK(ABT_pool_get_total_size(sc_pool[i], &tot));
-        VSA_CHECK(tot == 0, "stream X%d joined but its pool still accounts for %zu units", i, tot);
-        ABT_OK(ABT_xstream_free(&sc_xs[i]));
+        VSA_CHECK(tot == 0, "streams joined but pool P%d still accounts for %zu units", i, tot);
     }
+    for (int i = 1; i < nes; i++)
+        ABT_OK(ABT_xstream_free(&sc_xs[i]));
     for (int i = 0; i < nunits; i++) {
         unit *u = &U[i];
         if (u->cancel_me)
